@@ -208,8 +208,8 @@ def cases(tier, rng):
         for sh in ["1", "2", "b3", "3", "4", "#4", "5", "b6", "6", "b7", "7", "bb2", "#1", "b2", "bb3", "#5"]:
             for up in (True, False):
                 yield Case("nc.from_interval", [nm, 4, sh, up], "from_interval", kind=("interval",))
-    for key in ["C", "F#", "Eb", "a", "c#"]:
-        for num in ["I", "ii", "iii7", "IV", "V7", "bVII", "#ivdim7", "VIm7", "X"]:
+    for key in ["C", "F#", "Eb", "a", "c#", "ab", "d", "A", "D"]:
+        for num in ["I", "ii", "iii7", "IV", "V7", "bVII", "#ivdim7", "VIm7", "X", "i", "III", "vi7"]:
             yield Case("nc.from_progression", [num, key], "from_progression", kind=("prog",))
     for _ in range(100):
         items = [[rng.choice(roots), rng.randint(2, 6)] for _ in range(rng.randint(1, 5))]
@@ -413,6 +413,9 @@ def oracle(c, obs):
             return None                                   # unknown numerals: the model comparison decides
         if any(not 0 <= offset(n) <= 11 for n, q in obs):
             return None                                   # B#/Cb-type names: the recorded voicing finding's domain
+        want_names = progressions.to_chords([c["args"][0]], c["args"][1])
+        if want_names and [n for n, q in obs] != want_names[0]:
+            return "container built from progression shorthand does not hold the chord's notes in order (the key's case matters: 'a' is A minor)"
         if obs[0][1] != 4:
             return "container built from progression shorthand does not start in octave 4"
         ps = [pitch(n, q) for n, q in obs]
